@@ -6,7 +6,7 @@ import ast
 import os
 
 from ..srcmodel import own_nodes, AnalysisError
-from ..astutil import dotted, norm, get_arg
+from ..astutil import arg_for, dotted, norm, get_arg
 from ..tmpl.interp import Unmodelled
 from ..tmpl import space, langs
 
@@ -180,7 +180,7 @@ def registry_agreement(ctx, reg):
                detail='validation vanished')
     disp = ctx.repo.func('readcodearray.readcode')
     call = [n for n, cal in ctx.E.callees(rc) if cal is disp and isinstance(n, ast.Call)]
-    ok = bool(call) and all(norm(get_arg(call[0], None, k) or ast.Constant(0)) == k for k in ('language', 'basepath', 'abspath'))
+    ok = bool(call) and all(norm(arg_for(call[0], disp, k) or ast.Constant(0)) == k for k in ('language', 'basepath', 'abspath'))
     ctx.decide(ok, 'R-FLOW', 'T1', rc, call[0] if call else None, 'readcode-forwards-path-options',
                'Array.readcode forwards language, basepath and abspath to the dispatcher', detail='path options not forwarded')
     ok = any(isinstance(n, ast.Call) and isinstance(n.func, ast.Subscript) and norm(n.func.value) == 'readcodefunc'
